@@ -14,7 +14,7 @@ EXTENDS Trace_Algebra, UriSession, UriLanguage
 VARIABLES st, bad
 svars == <<l, st, bad>>
 
-Has(x, k) == k \in DOMAIN x
+HasField(x, k) == k \in DOMAIN x
 HarnessErr(why) == Fail("HARNESS", why)
 Same(j, v) == ValOf(j) = v
 PreCheck(j, s) == FailIf(~Same(j, st.slot[s].val), "C12", "the URI handed to the call is not what the slot held after the last call on it (its text changed behind its back)")
@@ -76,8 +76,8 @@ StepOf(x) ==
                 \o FailIf(Same(x.val, v) /\ x.text # Some(Recompose(v)), "C12", "the recomposed text of a URI changed although nothing it borrows from was touched")
                 \o FailIf(x.val.own # (IF st.slot[x.s].owner THEN 1 ELSE 0), "C12", "owner flag differs from the machine's")
                 \o FailIf(~WfOf(x.val), "C07", "structure not well formed")
-                \o FailIf(Same(x.val, v) /\ (x.rrc # 0 \/ (Has(x, "re") /\ ~SameMeaning(ValOf(x.re), v))), "C07", "the recomposed text is not a URI reference, or reads back with a different scheme, authority, path text, query or fragment")
-                \o FailIf(Same(x.val, v) /\ x.rrc = 0 /\ Has(x, "re") /\ SameMeaning(ValOf(x.re), v) /\ ~Equal(ValOf(x.re), v), "C11", "reads back with the same text but a different structure"),
+                \o FailIf(Same(x.val, v) /\ (x.rrc # 0 \/ (HasField(x, "re") /\ ~SameMeaning(ValOf(x.re), v))), "C07", "the recomposed text is not a URI reference, or reads back with a different scheme, authority, path text, query or fragment")
+                \o FailIf(Same(x.val, v) /\ x.rrc = 0 /\ HasField(x, "re") /\ SameMeaning(ValOf(x.re), v) /\ ~Equal(ValOf(x.re), v), "C11", "reads back with the same text but a different structure"),
                 st)
     [] x.e = "SEnd" -> R(FailIf(x.leak # 0 \/ x.bad, "C13", "blocks of the session's manager outstanding after every URI was freed (or a bad release)"), st)
     [] x.e = "SSkip" -> R(HarnessErr("the driver attempted an action its own mirror did not enable"), st)
@@ -85,7 +85,7 @@ StepOf(x) ==
 
 SInit == l = 1 /\ st = SessionInit({}, {}) /\ bad = FALSE
 \* fails explained by an enabled named deviation do not poison the episode: the machine follows the recorded object
-Explained(f) == \A i \in 1..Len(f) : Has(f[i], "dev")
+Explained(f) == \A i \in 1..Len(f) : HasField(f[i], "dev")
 SNext ==
   /\ l <= Len(Tr) /\ l' = l + 1
   /\ (l < Len(Tr) \/ RejOut([done |-> Len(Tr)]))
